@@ -4,6 +4,9 @@ package composite
 // is removed only when ALL revisions' finalize answers say finalized.
 
 import (
+	"k8s.io/apimachinery/pkg/apis/meta/v1/unstructured"
+
+	v1 "metacontroller/pkg/controller/composite/api/v1"
 	"metacontroller/pkg/zzverif/env"
 	rt "metacontroller/pkg/zzverif/rt"
 )
@@ -48,4 +51,135 @@ func VerifC10_FinalizeAcrossRevisions() {
 		rt.Cover("some-revision-not-finalized")
 		rt.Assert(!removed, "finalizing/finalizer-removed-although-a-live-revision-answered-not-finalized")
 	}
+}
+
+// VerifC10_History: life-cycle histories instead of one-step pre-states. A
+// sequence of events - plain sync; the controller's spec gains or loses its
+// finalize hook (the controller is restarted with the new spec); the user
+// deletes the parent; the hook starts answering finalized - each followed by a
+// whole real sync with caches rebuilt. After every sync the finalizer rules of
+// the statement are checked against the request log, and a deleted parent whose
+// hook said finalized is gone in the end.
+func VerifC10_History() {
+	w := env.NewWorld()
+	parent := env.Thing("ns", "p", "puid")
+	// somebody else's finalizer may hold the object as well
+	foreign := rt.Bool("foreign-finalizer")
+	if foreign {
+		verifSetFinalizers(parent, "example.com/other")
+	}
+	w.Srv.Put("things", parent)
+	finOn := rt.Bool("starts-with-finalize-hook")
+	finalized := false
+	mkPC := func() *verifPC {
+		mk := func(on bool) *verifHook {
+			return &verifHook{enabled: on, fn: func(req *v1.CompositeHookRequest) (*v1.CompositeHookResponse, error) {
+				kids := []*unstructured.Unstructured{env.ConfigMap("ns", "a", "", "v")}
+				if req.Finalizing {
+					kids = nil // clean-up: nothing is desired any more
+				}
+				// `finalized` only has a meaning in answers to finalizing requests
+				return &v1.CompositeHookResponse{Children: kids, Status: map[string]interface{}{"phase": "ok"}, Finalized: finalized && req.Finalizing}, nil
+			}}
+		}
+		return verifNewPC(w, verifPCConfig{
+			ParentRes: env.ThingRes, GenerateSelector: true, FinalizeEnabled: finOn,
+			Children: []verifChildRule{{Res: env.ConfigMapRes, Strategy: verifStrategyOf("InPlace")}},
+			Sync:     mk(true), Finalize: mk(finOn),
+		})
+	}
+	pc := mkPC()
+	steps := 3
+	if rt.Tier() == 1 {
+		steps = 4
+	}
+	deleted := false
+	for step := 0; step < steps; step++ {
+		switch rt.Choice("event", 4) {
+		case 0: // nothing but time passes (resync)
+		case 1:
+			finOn = !finOn
+			pc = mkPC()
+		case 2:
+			if !deleted {
+				deleted = true
+				if cur := w.Srv.Peek("things", "ns", "p"); cur != nil {
+					if len(cur.GetFinalizers()) == 0 {
+						w.Srv.Remove("things", "ns", "p")
+					} else {
+						c := cur.DeepCopy()
+						env.MarkDeleting(c)
+						c.SetResourceVersion(c.GetResourceVersion() + "+")
+						w.Srv.Put("things", c)
+					}
+				}
+			}
+		case 3:
+			finalized = true
+		}
+		cur := w.Srv.Peek("things", "ns", "p")
+		if cur == nil {
+			rt.Cover("history/parent-gone")
+			continue
+		}
+		hadFin := verifHasFinalizer(cur, verifFinalizerName)
+		dying := cur.GetDeletionTimestamp() != nil
+		pc.SnapshotFromStore()
+		w.Srv.ResetLog()
+		err := pc.syncParentObject(pc.W.Srv.All("things")[0])
+		rt.Assert(err == nil, "history/sync-error")
+		added, removedFin, childWrites, childWriteAfterRemoval := false, false, 0, false
+		for _, r := range w.Srv.Log {
+			if r.IsWrite() && r.Resource == "things" && r.Sub == "" && r.Body != nil && r.Accepted {
+				b, a := verifHasFinalizer(r.Pre, verifFinalizerName), verifHasFinalizer(r.Body, verifFinalizerName)
+				if !b && a {
+					added = true
+				}
+				if b && !a {
+					removedFin = true
+				}
+				// a finalizer edit touches nobody else's finalizer
+				rt.Assert(verifHasFinalizer(r.Body, "example.com/other") == verifHasFinalizer(r.Pre, "example.com/other"), "history/foreign-finalizer-touched")
+			}
+			if r.IsWrite() && r.Resource == "configmaps" {
+				childWrites++
+				if removedFin {
+					childWriteAfterRemoval = true
+				}
+			}
+		}
+		if dying {
+			rt.Assert(!added, "history/finalizer-added-to-a-parent-being-deleted")
+		}
+		if !finOn {
+			rt.Assert(!added, "history/finalizer-added-without-finalize-hook")
+			if hadFin {
+				rt.Cover("history/leftover-removed")
+				rt.Assert(removedFin, "history/leftover-finalizer-not-removed")
+			}
+		} else if !dying {
+			rt.Assert(hadFin || added, "history/finalizer-not-added-first")
+			rt.Assert(!removedFin, "history/finalizer-removed-from-a-live-matching-parent")
+		} else {
+			// finalize hook, parent pending deletion
+			if hadFin && finalized {
+				rt.Cover("history/finalized")
+				rt.Assert(removedFin, "history/finalized-but-finalizer-kept")
+			} else {
+				rt.Assert(!removedFin, "history/finalizer-removed-without-finalized-true")
+			}
+		}
+		if dying && (!finOn || !hadFin) {
+			rt.Assert(childWrites == 0, "history/child-written-for-a-dying-parent-without-finalize-duty")
+		}
+		rt.Assert(!childWriteAfterRemoval || !dying, "history/child-written-after-the-finalizer-was-removed")
+	}
+	// a deleted parent is gone once nobody holds it any more
+	if cur := w.Srv.Peek("things", "ns", "p"); cur != nil && deleted {
+		rt.Assert(len(cur.GetFinalizers()) > 0, "history/deleted-parent-without-finalizers-still-stored")
+		if !foreign && !verifHasFinalizer(cur, verifFinalizerName) {
+			rt.Assert(false, "history/deleted-parent-held-by-nobody")
+		}
+	}
+	rt.Cover("history/done")
 }
